@@ -52,8 +52,9 @@ ASSUMPTIONS = [
 ]
 REQUIRED_COUNTERS = ["export_checked", "validate_checked", "len_checked", "format_roundtrips", "foreign_loads",
                      "api_laws", "cli_runs", "harvest_trees", "mbin_export", "mbin_validate", "mbin_len"]
-CASE_TIMEOUT_S = 1200  # the repository-test harvest cases are single long cases; a loaded machine must not turn them inconclusive
+CASE_TIMEOUT_S = 900
 WATCHDOG_S = {"quick": 1800, "thorough": 7200}
+REPO_TESTS_TIMEOUT_S = {"quick": 240, "thorough": 600}  # unloaded: 8..35 s per module
 
 KEY_NESTED_NOPATTERN = "hex-s19-save-omits-zero-fill-of-nested-patternless-image"
 
@@ -76,15 +77,15 @@ def cases(tier, seed):
     for src, (nq, nt) in HARVEST_SOURCES.items():
         for k in range(nt if th else nq):
             yield {"kind": "harvest", "src": src, "k": k}
-    for k in range(320 if th else 32):
+    for k in range(240 if th else 32):
         yield {"kind": "trees", "k": k, "n": 120 if th else 60}
-    for k in range(256 if th else 32):
+    for k in range(192 if th else 32):
         yield {"kind": "formats", "k": k, "n": 40 if th else 14}
-    for k in range(96 if th else 8):
-        yield {"kind": "foreign", "k": k, "n": 40 if th else 16}
-    for k in range(96 if th else 8):
-        yield {"kind": "api", "k": k, "n": 120 if th else 50}
     for k in range(64 if th else 8):
+        yield {"kind": "foreign", "k": k, "n": 40 if th else 16}
+    for k in range(64 if th else 8):
+        yield {"kind": "api", "k": k, "n": 120 if th else 50}
+    for k in range(48 if th else 8):
         yield {"kind": "cli", "k": k, "n": 30 if th else 10}
 
 
@@ -111,6 +112,11 @@ REPO_TEST_MODULES = [  # (modules, -k selection used by the quick tier)
 
 
 def selftest(ctx):
+    # prepare phase (single process): build the complete device-database cache now, so that the 16 workers only ever read
+    # it - concurrent first-time creation of the cache is a C18 matter and must not leak into this check
+    from spsdk.utils.database import DatabaseManager
+
+    DatabaseManager().db  # noqa: B018  pylint: disable=expression-not-assigned
     return {"binimg": R.selftest(core.repo_root())}
 
 
@@ -1435,16 +1441,35 @@ def harvest_repo_tests(case, ctx):
     log = os.path.join(ctx.workdir, "pytest_mbin.jsonl")
     _rm(log)
     env = dict(os.environ, VERIF_C16_PYTEST_LOG=log)
+    cache = os.environ.get("SPSDK_CACHE_FOLDER")
+    if cache and os.path.isdir(cache):
+        # private copy of the warmed cache: the test process may be cut off (killed) while it writes there
+        import shutil
+
+        private = os.path.join(ctx.workdir, "ptcache")
+        shutil.rmtree(private, ignore_errors=True)
+        shutil.copytree(cache, private)
+        env["SPSDK_CACHE_FOLDER"] = private
     cmd = ["/venv/bin/python", "-m", "pytest", "-q", "--no-header", "-p", "no:cacheprovider", "-p", "no:xdist", "-p", "vf.props.c16",
            "--basetemp", os.path.join(ctx.workdir, "pt"), "-o", "addopts="] + present
     if case.get("select"):
         cmd += ["-k", case["select"]]
-    try:
-        res = subprocess.run(cmd, cwd=root, env=env, capture_output=True, text=True, timeout=CASE_TIMEOUT_S - 60, check=False)
-        tail = (res.stdout or "").strip().splitlines()[-1:] or [""]
-    except subprocess.TimeoutExpired:
-        raise core.Inconclusive(f"repository tests {mods[0]} did not finish")
-    ctx.note("repo_tests_result", {"modules": [os.path.basename(m) for m in present], "pytest": tail[0][:120], "rc": res.returncode})
+    # The repository tests are an *extra* workload: a run that does not finish in time (loaded machine) is cut off and what
+    # the wrappers saw until then is used; it never decides the verdict by itself (wall-clock only ever loses coverage).
+    budget = REPO_TESTS_TIMEOUT_S[ctx.tier if ctx.tier in REPO_TESTS_TIMEOUT_S else "quick"]
+    timed_out = False
+    with subprocess.Popen(cmd, cwd=root, env=env, stdout=subprocess.PIPE, stderr=subprocess.STDOUT, text=True) as proc:
+        try:
+            stdout, _ = proc.communicate(timeout=budget)
+        except subprocess.TimeoutExpired:
+            timed_out = True
+            proc.kill()
+            stdout, _ = proc.communicate()
+    tail = (stdout or "").strip().splitlines()[-1:] or [""]
+    ctx.note("repo_tests_result", {"modules": [os.path.basename(m) for m in present], "rc": proc.returncode,
+                                   "pytest": "cut off after %d s" % budget if timed_out else tail[0][:120]})
+    if timed_out:
+        ctx.count("repo_tests_cut_off")
     counters = None
     nviol = 0
     if os.path.exists(log):
@@ -1462,7 +1487,10 @@ def harvest_repo_tests(case, ctx):
                 elif ev.get("t") == "note":
                     ctx.note("repo_tests:" + ev["k"], ev["v"])
     if counters is None:
-        raise core.Inconclusive(f"pytest plugin wrote no counters for {mods[0]}: {(res.stderr or res.stdout or '')[-300:]}")
+        if timed_out:
+            ctx.ok(["harvest-repo-tests", "cut-off-before-first-test"], nontrivial=False)
+            return
+        raise core.Inconclusive(f"pytest plugin wrote no counters for {mods[0]}: {(stdout or '')[-300:]}")
     if counters.get("mbin_wrapper_errors"):
         raise core.Inconclusive(f"M-BIN wrapper raised inside the repository tests {mods[0]} (see observations)")
     for k, v in counters.items():
@@ -1496,6 +1524,12 @@ def pytest_runtest_setup(item):
     ctx = _MON.get("ctx")
     if ctx is not None:
         ctx._viol_in_case = 0  # pylint: disable=protected-access
+
+
+def pytest_runtest_teardown(item):  # noqa: ARG001
+    ctx = _MON.get("ctx")
+    if ctx is not None and _MON.get("pytest_mode"):
+        ctx._emit({"t": "counters", "v": ctx.counters})  # pylint: disable=protected-access
 
 
 def pytest_unconfigure(config):
